@@ -425,7 +425,7 @@ def c15(sc, tier, seed):
 
 
 def c18(sc, tier, seed):
-    return transition_check(sc, tier, seed, 'C18', ['MC_bitmaps', 'MC_bitfield'], quick_n=50000,
+    return transition_check(sc, tier, seed, 'C18', ['MC_bitmaps', 'MC_bitfield'], quick_n=50000, walks=['MC_bitmaps_walk'], walk_n=(600, 6000),
                             rule='TLC enumerates MC_bitmaps (strings of 0-3 bytes over {00,ff,80,01,a5} x GETBIT/SETBIT at every offset 0..25, BITCOUNT and BITPOS over byte ranges -4..4 and bit ranges -25..30 with BYTE/BIT units, BITOP AND/OR/XOR/NOT over operand tuples incl. missing, repeated and wrong-typed ones) and MC_bitfield (BITFIELD GET/SET/INCRBY for 13 widths 1..64 x signedness x aligned, unaligned and #-scaled offsets spanning up to 9 bytes x the values at each type\'s overflow boundaries x OVERFLOW WRAP/SAT/FAIL, computed exactly on decimal digit sequences) and replays every transition with full-state comparison (so a write touching other bits, or a read changing the value, is seen).',
                             assumptions=['BITFIELD wrap-around is modelled for values within two wraps of the type range (the universe only contains such values)'])
 
